@@ -205,6 +205,7 @@ def every_rule(ctx, f, cfg):
         keep = sorted(short(a) for a in atoms if a.startswith(("field:core", "call:core")))
         return "other:" + ",".join(keep[:6])
     w = D.Walker(f, b, classify)
+    w.summarise_predicates = True       # verdict.is_blocked() / is_wait() and a match on the verdict are the same atom
     sets = {bb for bb, t in b.calls() if callee_is(t, "EntryContext::set_result")}
     sleeps = {bb for bb, t in b.calls() if callee_is(t, "utils::sleep_for_ns", "sleep_for_ns")}
     start = b.term(lists[0])["target"]
